@@ -135,44 +135,38 @@ impl Engine for Truth {
         if !prefix.is_empty() {
             out.label("stream-not-at-offset-0");
         }
-        let sw = SharedWriter::new(RecWriter::with_prefix(&prefix));
+        let _ = (&NoDrop::new(0u8), std::marker::PhantomData::<FlacSampleWriter<std::io::Cursor<Vec<u8>>>>);
         let start = prefix.len();
-        // encode, noting where finalize begins in the operation log
-        let r = guarded(|| -> Result<(usize, usize), EncErr> {
-            let opt = o.to_options().map_err(EncErr::Options)?;
-            let total = if o.declare_total { Some(codec::declared_total(&pcm, Front::Samples)) } else { None };
-            let mut w = NoDrop::new(
-                FlacSampleWriter::new(sw.clone(), opt, pcm.rate, pcm.bps as u32, pcm.channels, total).map_err(|e| EncErr::New(e.to_string()))?,
-            );
-            let data = pcm.interleaved();
-            let mut off = 0;
-            let mut ci = 0;
-            while off < data.len() {
-                let n = if c.enc.chunks.is_empty() { data.len() - off } else { c.enc.chunks[ci % c.enc.chunks.len()].clamp(1, data.len() - off) };
-                ci += 1;
-                w.write(&data[off..off + n]).map_err(|e| EncErr::Write(e.to_string()))?;
-                off += n;
-            }
-            let mark_ops = sw.ops_len();
-            let mark_len = sw.0.borrow().data.len();
-            w.into_inner().finalize().map_err(|e| EncErr::Finalize(e.to_string()))?;
-            Ok((mark_ops, mark_len))
-        });
-        let (mark_ops, mark_len) = match r {
-            Err(p) => {
+        let total = if o.declare_total { Some(codec::declared_total(&pcm, c.enc.front)) } else { None };
+        // run A stops before finalize: it tells where finalize begins in the operation log
+        // (the encoder is deterministic, so run B issues the same operations up to that point)
+        let sw_a = SharedWriter::new(RecWriter::with_prefix(&prefix));
+        let ra = guarded(|| codec::encode_full(sw_a.clone(), &pcm, &o, c.enc.front, &c.enc.chunks, total, &[], 0, false));
+        let sw = SharedWriter::new(RecWriter::with_prefix(&prefix));
+        let r = guarded(|| codec::encode_full(sw.clone(), &pcm, &o, c.enc.front, &c.enc.chunks, total, &[], 0, true));
+        let (mark_ops, mark_len) = match (ra, r) {
+            (Err(p), _) | (_, Err(p)) => {
                 out.fails.push(Fail::panic("encode-panic", &p));
                 return out;
             }
-            Ok(Err(EncErr::Options(e))) => {
+            (_, Ok(Err(EncErr::Options(e)))) | (Ok(Err(EncErr::Options(e))), _) => {
                 out.fail(format!("options-rejected:{}", strip_digits(&e)), e);
                 return out;
             }
-            Ok(Err(e)) => {
+            (_, Ok(Err(e))) | (Ok(Err(e)), _) => {
                 out.fail(format!("encode-error:{}:{}", e.stage(), strip_digits(e.text())), format!("{e:?}"));
                 return out;
             }
-            Ok(Ok(m)) => m,
+            (Ok(Ok(())), Ok(Ok(()))) => (sw_a.ops_len(), sw_a.0.borrow().data.len()),
         };
+        {
+            let a = sw_a.0.borrow();
+            let b = sw.0.borrow();
+            if b.ops.len() < mark_ops || a.ops[..] != b.ops[..mark_ops] {
+                out.fail("nondeterministic-write-sequence", "two identical encodes issued different operations before finalize");
+                return out;
+            }
+        }
         let rec = sw.snapshot();
         // junk prefix intact
         if rec.data[..start] != prefix[..] {
@@ -318,14 +312,15 @@ pub fn truth_strategy() -> BoxedStrategy<TruthCase> {
         prop_oneof![3 => Just(0u8), 4 => 1u8..=6],
         super::c01::chunks_strategy(),
         proptest::sample::select(&[8u32, 16, 40, 100, 44100, 0][..]),
+        super::c01::front_strategy(),
     )
-        .prop_flat_map(|(mut o, seek, prefix_len, pad_mode, chunks, rate)| {
+        .prop_flat_map(|(mut o, seek, prefix_len, pad_mode, chunks, rate, front)| {
             o.seek = seek;
             let frames = opts::frames_strategy(o.block_size, 8);
             pcm::recipe_strategy(pcm::channels_strategy(), frames).prop_map(move |mut recipe: Recipe| {
                 recipe.rate = rate;
                 TruthCase {
-                    enc: EncCase { recipe, opts: o.clone(), front: Front::Samples, chunks: chunks.clone() },
+                    enc: EncCase { recipe, opts: o.clone(), front, chunks: chunks.clone() },
                     prefix_len,
                     pad_mode,
                 }
